@@ -21,10 +21,11 @@ pub struct Knobs {
     pub reboot_pct: u64,
     pub inject_pct: u64,           // percent of cases with control requests sent between polls
     pub drop_pct: u64,             // percent of cases that drop all control handles at some wait
+    pub reboot_scn_pct: u64,       // percent of cases directed at a long wait-for-reboot (install succeeds, reboot refused several times)
 }
 pub fn default_knobs() -> Knobs {
     Knobs { cup: None, oneshot_pct: 15, forged_pct: 10, retry_after_pct: 20, update_pct: 50, faults_pct: 10,
-            weird_storage_pct: 10, clock_jump_pct: 10, bad_url_pct: 3, max_checks: 4, reboot_pct: 50, inject_pct: 25, drop_pct: 5 }
+            weird_storage_pct: 10, clock_jump_pct: 10, bad_url_pct: 3, max_checks: 4, reboot_pct: 50, inject_pct: 25, drop_pct: 5, reboot_scn_pct: 5 }
 }
 
 pub fn knobs_for(prop: &str) -> Knobs {
@@ -37,9 +38,9 @@ pub fn knobs_for(prop: &str) -> Knobs {
         "C08" => { k.faults_pct = 0; k.weird_storage_pct = 0; }
         "C09" => { k.update_pct = 20; k.faults_pct = 0; }
         "C04" | "C10" => { k.update_pct = 85; }
-        "C18" => { k.update_pct = 90; k.reboot_pct = 70; }
-        "C05" | "C12" => { k.update_pct = 60; k.reboot_pct = 70; }
-        "C11" => { k.update_pct = 60; k.reboot_pct = 70; k.inject_pct = 90; k.drop_pct = 15; k.oneshot_pct = 0; k.max_checks = 5; }
+        "C18" => { k.update_pct = 90; k.reboot_pct = 70; k.reboot_scn_pct = 20; }
+        "C05" | "C12" => { k.update_pct = 60; k.reboot_pct = 70; k.reboot_scn_pct = 35; }
+        "C11" => { k.update_pct = 60; k.reboot_pct = 70; k.inject_pct = 90; k.drop_pct = 15; k.oneshot_pct = 0; k.max_checks = 5; k.reboot_scn_pct = 35; }
         _ => {}
     }
     k
@@ -203,8 +204,45 @@ pub fn gen_sm(rng: &mut Rng, k: &Knobs) -> Value {
     let reboot: Vec<Value> = (0..rng.below(3)).map(|_| json!(rng.chance(3, 4))).collect();
     let stimuli: Vec<Value> = (0..rng.below(3 * k.max_checks + 1)).map(|_| match rng.below(8) {
         0 => json!({"control": "ondemand"}), 1 => json!({"control": "scheduled"}), 2 => json!({"fire": 1}), 3 => json!({"fire": 2}), _ => json!({"fire": 0}) }).collect();
-    let oneshot = rng.below(100) < k.oneshot_pct;
+    let mut oneshot = rng.below(100) < k.oneshot_pct;
     let mut stimuli = stimuli;
+    let (mut next_time, mut allowed, mut can_start, mut reboot_needed, mut reboot_allowed, mut http, mut plan, mut perform) =
+        (next_time, allowed, can_start, reboot_needed, reboot_allowed, http, plan, perform);
+    if rng.below(100) < k.reboot_scn_pct {
+        // Directed scenario: the first check installs everything, a reboot is needed and refused several times, and
+        // the wait for the reboot sees pings (with and without a minimum wait), reboot-timer firings and control
+        // requests of both kinds before the policy finally gives in.
+        oneshot = false;
+        let ok_doc = |rng: &mut Rng| {
+            let apps: Vec<Value> = app_ids.iter().map(|id| json!({"id": hx(id),
+                "cohort": {"id": ohx(&opt_co(rng)), "hint": ohx(&opt_co(rng)), "name": ohx(&opt_co(rng))},
+                "uc": {"status": "ok", "manifest": hx(&format!("{}.{}.0.0", 2 + rng.below(8), rng.below(20)))}})).collect();
+            json!({"status": 200, "retry_after": [], "auth": "genuine", "body": {"doc": {"daystart": {"days": rng.below(10000)}, "apps": apps}}})
+        };
+        let mut h = vec![ok_doc(rng)];
+        for _ in 0..(3 + rng.below(8)) { h.push(if rng.chance(1, 5) { rand_http(rng, &app_ids, k, cup_on) } else { ok_doc(rng) }); }
+        http = h;
+        plan = vec![json!(hex::encode("plan-a"))];
+        can_start = vec![json!("ok")];
+        perform = vec![json!({"progress": [0.5f32.to_bits()], "results": ["installed", "installed", "installed", "installed", "installed"]})];
+        reboot_needed = vec![json!(true)];
+        reboot_allowed = (0..(3 + rng.below(6))).map(|_| json!(false)).collect();
+        reboot_allowed.push(json!(true));
+        allowed = vec![json!({"d": "ok", "params": rand_params_json(rng)})];
+        next_time = (0..(4 + rng.below(5))).map(|_| json!({"time": rand_pct(rng, cw, cm),
+            "min": if rng.chance(1, 2) { json!((10_000_000_000u64 + rng.below(100_000_000_000)).to_string()) } else { Value::Null }})).collect();
+        let mut st: Vec<Value> = match rng.below(3) {
+            0 => vec![json!({"control": "ondemand"})],
+            1 => vec![json!({"control": "scheduled"})],
+            _ => vec![json!({"fire": 0}), json!({"fire": 0})],
+        };
+        for _ in 0..(8 + rng.below(8)) {
+            st.push(match rng.below(20) {
+                0..=7 => json!({"fire": 0}), 8..=12 => json!({"fire": 1}), 13..=14 => json!({"fire": 2}),
+                15..=17 => json!({"control": "ondemand"}), _ => json!({"control": "scheduled"}) });
+        }
+        stimuli = st;
+    }
     let mut inject: Vec<Value> = vec![];
     if !oneshot && rng.below(100) < k.inject_pct {
         let mut idx = 0u64;
